@@ -389,6 +389,59 @@ func scenC06(c *ctx) {
 		c.rec.Emit(doGenerateOCRA(fmt.Sprintf("C06/sibling/%d/gena", id), secret, sa, in))
 		c.rec.Emit(doGenerateOCRA(fmt.Sprintf("C06/sibling/%d/genb", id), secret, sb, in))
 	}
+	// boundary shift: the same secret and suite, two inputs whose selected variable-length fields CONCATENATE to the
+	// same bytes but are split at different places (challenge one byte shorter, session one byte longer, a password
+	// in between shifted through); each code validates for its own input only, back to back in both orders (a memo
+	// or message assembled without the fixed-width layout confuses the two)
+	for i := 0; i < c.n(40, 600); i++ {
+		id++
+		key := c.someKey()
+		secret := b32(key)
+		mask := 2 | 8 | c.rng.Intn(32)
+		a := c.handBuilt(mask, c.rng.Intn(3), 4+c.rng.Intn(7), []byte(fmt.Sprintf("OCRA-1:SHIFT-%d", c.rng.Intn(3))))
+		inA := c.admissibleInput(a, 3)
+		lo := minChal(a.Chal)
+		inA.Challenge = c.randBytes(lo + 1 + c.rng.Intn(128-lo))
+		inA.SessionInfo = c.randBytes(c.rng.Intn(128))
+		switch i % 5 {
+		case 0:
+			inA.SessionInfo = nil
+		case 1:
+			inA.Challenge = c.randBytes(lo + 1)
+		case 2:
+			inA.Challenge = c.randBytes(128)
+			inA.SessionInfo = c.randBytes(127)
+		}
+		var cat []byte
+		cat = append(cat, inA.Challenge...)
+		if a.P {
+			cat = append(cat, inA.Password...)
+		}
+		cat = append(cat, inA.SessionInfo...)
+		inB := inA
+		q := len(inA.Challenge) - 1
+		inB.Challenge = append([]byte{}, cat[:q]...)
+		rest := cat[q:]
+		if a.P {
+			inB.Password = append([]byte{}, rest[:len(inA.Password)]...)
+			rest = rest[len(inA.Password):]
+		}
+		inB.SessionInfo = append([]byte{}, rest...)
+		sa := cfgSuiteArg(a)
+		ga := doGenerateOCRA("probe", secret, sa, inA)
+		gb := doGenerateOCRA("probe", secret, sa, inB)
+		if ga.Kind != "value" || gb.Kind != "value" {
+			continue
+		}
+		ca, cb := string(ga.Val), string(gb.Val)
+		c.rec.Emit(doValidateOCRA(fmt.Sprintf("C06/shift/%d/aa", id), secret, ca, sa, inA))
+		c.rec.Emit(doValidateOCRA(fmt.Sprintf("C06/shift/%d/ab", id), secret, ca, sa, inB))
+		c.rec.Emit(doValidateOCRA(fmt.Sprintf("C06/shift/%d/bb", id), secret, cb, sa, inB))
+		c.rec.Emit(doValidateOCRA(fmt.Sprintf("C06/shift/%d/ba", id), secret, cb, sa, inA))
+		c.rec.Emit(doValidateOCRA(fmt.Sprintf("C06/shift/%d/aa2", id), secret, ca, sa, inA))
+		c.rec.Emit(doGenerateOCRA(fmt.Sprintf("C06/shift/%d/gena", id), secret, sa, inA))
+		c.rec.Emit(doGenerateOCRA(fmt.Sprintf("C06/shift/%d/genb", id), secret, sa, inB))
+	}
 	// generation would fail: invalid suites and inadmissible inputs never validate, whatever the code
 	for i := 0; i < c.n(80, 1500); i++ {
 		id++
